@@ -278,6 +278,7 @@ def fixed_module(rng, quick=True):
     add("FSeq1", _sq([("a", I8((C, 0, ""))), ("b", _B((C, 1, "")), "OPTIONAL"), ("c", I8((C, 2, "")), ("DEFAULT", "7", 7)), ("d", _N((C, 3, "")), "OPTIONAL")]),
         [{"a": 1}, {"a": 1, "b": True}, {"a": 255, "c": 8}, {"a": 0, "b": False, "c": 0, "d": None}])
     add("FSeqE0", _sq([("a", I8((C, 0, "")))], ext=1), [{"a": 5}])
+    add("FSeqEmptyE", _sq([], ext=0), [{}])          # SEQUENCE { ... }: the extension bit alone (F120 repaired)
     add("FSeqE1", _sq([("a", I8((C, 0, ""))), ("x", _B((C, 1, "")), "OPTIONAL")], ext=1), [{"a": 5}, {"a": 5, "x": True}])
     add("FSeqE3", _sq([("a", _B((C, 0, "")), "OPTIONAL"), ("x", _N((C, 1, "")), "OPTIONAL"), ("y", T("OCTET STRING", tag=(C, 2, "")), "OPTIONAL"),
                        ("z", _sq([("p", I8((C, 0, ""))), ("q", _B((C, 1, "")), "OPTIONAL")]) | {"tag": (C, 3, "")}, "OPTIONAL")], ext=1),
